@@ -289,12 +289,13 @@ class Hugr(Mapping[Node, NodeData], Generic[OpVarCov]):
         parent = self[node].parent
         if parent:
             self[parent].children.remove(node)
-        # remove every link of every port (all sub-offsets), in both directions
-        for offset in range(self.num_in_ports(node)):
+        # remove every link of every port (all sub-offsets), in both directions,
+        # including the order ports (offset -1)
+        for offset in range(-1, self.num_in_ports(node)):
             in_sub = _SubPort(node.inp(offset))
             while in_sub in self._links.bck:
                 self._delete_sub_link(self._links.bck[in_sub])
-        for offset in range(self.num_out_ports(node)):
+        for offset in range(-1, self.num_out_ports(node)):
             out_sub = _SubPort(node.out(offset))
             while out_sub in self._links.fwd:
                 self._delete_sub_link(out_sub)
